@@ -63,7 +63,7 @@ type access struct {
 
 // RaceReport: two unordered accesses, at least one a write, both in code under test.
 type RaceReport struct {
-	Kind       string // write-write, write-read, read-write
+	Kind          string // write-write, write-read, read-write
 	First, Second string
 }
 
@@ -194,9 +194,9 @@ type Chan struct {
 	sendq []*sendWait
 	// recvWaiting counts receivers currently blocked (for unbuffered rendezvous)
 	recvWaiting int
-	elem   types.Type
-	timer  *timerObj
-	vc     vclock // race detection: join of the clocks of everything sent / closed on it
+	elem        types.Type
+	timer       *timerObj
+	vc          vclock // race detection: join of the clocks of everything sent / closed on it
 }
 
 type sendWait struct {
@@ -211,34 +211,34 @@ type timerObj struct {
 	ch      *Chan
 	fired   bool
 	stopped bool
-	fn      Value // AfterFunc callback
+	fn      Value  // AfterFunc callback
 	vc      vclock // clock of the creator at creation
 }
 
 type goroutine struct {
-	id     int
-	name   string
-	wake   chan bool
-	ready  func() bool // nil: runnable
-	done   bool
-	isMain bool
+	id      int
+	name    string
+	wake    chan bool
+	ready   func() bool // nil: runnable
+	done    bool
+	isMain  bool
 	started bool
-	start  func()
-	vc     vclock
+	start   func()
+	vc      vclock
 }
 
 type killSignal struct{}
 
 type scheduler struct {
-	ex      *Exec
-	gs      []*goroutine
-	cur     *goroutine
-	killed  bool
-	abort   interface{} // engine signal raised inside a non-main goroutine
-	timers  []*timerObj
-	now     Value // the logical clock: int64, or a symbolic term once a symbolic due time was reached
-	ctxs    []*Opaque // cancellable contexts the environment may end
-	nextID  int
+	ex       *Exec
+	gs       []*goroutine
+	cur      *goroutine
+	killed   bool
+	abort    interface{} // engine signal raised inside a non-main goroutine
+	timers   []*timerObj
+	now      Value     // the logical clock: int64, or a symbolic term once a symbolic due time was reached
+	ctxs     []*Opaque // cancellable contexts the environment may end
+	nextID   int
 	switches int
 }
 
@@ -590,7 +590,6 @@ func (s *scheduler) dispatchNoEnv(g *goroutine) {
 		}
 	}
 }
-
 
 func (ex *Exec) goStmt(fn Value, args []Value, in *ssa.Go, fr *frame) {
 	name := "go@" + fr.shortPos(in)
